@@ -73,6 +73,45 @@ CHECKS["C17"] = dict(
     note="Trusts TLC and the harness; a spin without any transport call is detected by a 10 s alarm per call; the request cap for "
          "the handshake phase is taken to be 16384 bytes like in the frame phase.", ref="4 C17")
 
+CHECKS["C10"] = dict(
+    engine="Http+HttpMC+ReqBatch",
+    technique="TLA+ definition of the request (Http!Request) as oracle, meta-checked by TLC over the component product; "
+              "TLC batch validation of the bytes the real connect() writes; independent server (websockets) acceptance",
+    text="Http!RequestHeaders/RequestLine define the request for every target and option set; TLC checks meta-properties of the "
+         "definition (mandatory headers once, port rule, IPv6 brackets, cookie order) over the component product, then judges "
+         "every request captured from the real library (all targets, all pairs of option values, random full combinations, three "
+         "successive connections for key freshness, key = base64 of the single os.urandom(16) draw observed).",
+    note="Trusts TLC, the strict request parser in the harness and the websockets package for the independent-server clause; "
+         "header order is not constrained (the property does not).", ref="4 C10")
+CHECKS["C18"] = dict(
+    engine="Target+TargetMC+TargetBatch",
+    technique="TLC enumerates the URL component product and renders URL + expected target (spec -> code scenarios); TLC model "
+              "checks the dial loop machine over all outcome lists; TLC batch validation of real parse_url/connect()/dial runs",
+    text="Every URL of the component product (scheme x separator x userinfo x host form x port x path x query, 7k cases) is produced "
+         "by TLC together with the expected (host, port, resource, TLS) or ValueError and run through parse_url and the real connect() "
+         "(resolver arguments, request line, TLS wrap, no network on refusal); the dial loop is a TLA+ step machine checked over all "
+         "outcome lists, and all lists of length 1..4 x socket options x timeout are executed on fake sockets and judged by TLC.",
+    note="Trusts TLC and vf/networld.py; 'unreachable' is ENETUNREACH (EHOSTUNREACH behaviour is reported as a remark only).",
+    ref="4 C18")
+CHECKS["C19"] = dict(
+    engine="Target+TargetMC+TargetBatch",
+    technique="TLA+ exemption over label sequences / octet tuples (cross-checked in TLC against a string-level definition), "
+              "decision and tunnel operators; TLC batch validation of real _is_no_proxy_host/get_proxy_info/connect() runs",
+    text="Hosts are all label sequences of length 1..3 over {a,b,ab,ba} so look-alike suffixes are exhaustive; every no_proxy "
+         "singleton (and pairs) from option and both environment spellings, every IPv4 prefix length 0..32 with addresses around "
+         "the block, the product of proxy option x four environment variables x no_proxy sources, and CONNECT tunnels with every "
+         "reply class x credentials x origin are executed against the real code and judged by TLC.",
+    note="Trusts TLC, the rendering of labels/octets to text, vf/networld.py; TLS through the tunnel is covered by C11.", ref="4 C19")
+CHECKS["C20"] = dict(
+    engine="Cookie+CookieMC+TraceCookie",
+    technique="TLC exhaustive model checking of the jar machine against a history-based definition + TLC trace validation of "
+              "real handshake histories",
+    text="The jar is a TLA+ machine over label-sequence domains; TLC checks all histories up to the bound (LatestWins vs an independent "
+         "fold over the history, NeverOutsideDomain, ExactlyCovered); real connect() histories (responses with Set-Cookie lines in every "
+         "case/dot rendering, targets inside, outside and look-alike) are stepped through the same machine by TLC.",
+    note="Trusts TLC and vf/networld.py; alphanumeric names/values; ambiguous same-name-in-two-covering-domains histories unjudged.",
+    ref="4 C20")
+
 NOT_YET = {}
 
 
